@@ -2,7 +2,7 @@
 
    C09: private attributes are never serialised unless asked for, nor sent in the clear. *)
 From Coq Require Import List NArith ZArith Bool.
-From Cedar Require Import Lib.Bytes Model.Msg Model.Privacy Model.AdWire Proofs.C09.
+From Cedar Require Import Lib.Bytes Model.Msg Model.Privacy Model.AdWire Proofs.C09 Proofs.C14Writer Proofs.C09Layout.
 Import ListNotations.
 Local Open Scope N_scope.
 
@@ -70,6 +70,24 @@ Theorem C09_secret_frames : forall (st : sstate) (e : bytes),
     /\ sealed <> [] /\ s_buf (put_secret_expr st e) = [].
 Proof. exact put_secret_frames. Qed.
 Print Assumptions C09_secret_frames.
+
+(* The explicit layout on a stream that holds a key but is not encrypting, for EVERY ad, option
+   set, whitelist and peer version: the bytes written in clear frames are the count, ServerTime if
+   requested, then per serialised attribute either its "name = value" string (public attributes)
+   or just the marker string "ZKM" (private names and EncryptedAttrs), then the type names; the
+   "name = value" of every secret attribute is written under the seal, as a length-prefixed
+   string, and nowhere else.  (cbytes / sbytes = payload bytes of the clear / sealed frames.) *)
+Theorem C09_marker_layout : forall (c : config) (a : ad),
+  let st := s_finish (put_ad c (sstate_init true false) a) in
+  let send := attrs_to_send c (ad_attrs a) in
+  cbytes st =
+    enc_int (Z.of_nat (length send) + (if opt_server_time (c_opts c) then 1 else 0)) ++
+    (if opt_server_time (c_opts c) then string_bytes false server_time_expr else []) ++
+    concat (map (clear_item c) send) ++
+    (if opt_no_types (c_opts c) then [] else string_bytes false (ad_mytype a) ++ string_bytes false (ad_targettype a))
+  /\ sbytes st = concat (map (fun x => string_bytes true (expr_text x)) (filter (secret_attr' c) send)).
+Proof. exact marker_layout. Qed.
+Print Assumptions C09_marker_layout.
 
 (* With the opt-in (and no whitelist, current or unknown peer) every attribute is sent: the filter is not vacuous. *)
 Theorem C09_opt_in_sends_all : forall (c : config) (attrs : list attr) (a : attr),
